@@ -2,7 +2,7 @@ from props.common import *
 
 # ------------------------------------------------------------------ C13
 def strict_opts(p):
-    """Independent strict reading of a query of the property's shape: header, ONE question with
+    """Independent strict reading of a query of the property's shape: header, one or more questions with
     uncompressed ordinary labels, no answers/authorities, ARCOUNT additional records with uncompressed owners of which exactly
     one is an OPT RR, with root owner, whose options tile its RDATA (other records - a TSIG, say - may stand before AND after
     it), the last record ending the message.  Returns [(offset of OPTION-CODE, code, data length)] or None."""
@@ -10,7 +10,7 @@ def strict_opts(p):
         if len(p) < 12:
             return None
         qd, an, ns, ar = (int.from_bytes(p[i:i + 2], "big") for i in (4, 6, 8, 10))
-        if qd != 1 or an or ns or ar < 1:
+        if qd < 1 or an or ns or ar < 1:
             return None
 
         def name(off):
@@ -25,10 +25,14 @@ def strict_opts(p):
                 if n > 255:
                     return None
                 off += 1 + l
-        off = name(12)
-        if off is None:
-            return None
-        off += 4
+        off = 12
+        for _ in range(qd):          # one question, or several (RFC 1035 allows it; the proxy forwards them)
+            off = name(off)
+            if off is None:
+                return None
+            off += 4
+            if off > len(p):
+                return None
         opts = None
         for k in range(ar):
             o = name(off)
